@@ -286,6 +286,9 @@ func (vc *VC) Discharge(obls []*Obligation, workDir string, quickMs, slowMs int)
 				}
 			}
 		}
+		if vc.knownOpen[o.Name] {
+			return // a recorded finding: one bounded attempt is enough to see that it still fails
+		}
 		rr := raceSolvers(sf, slowMs)
 		if rr.err != nil {
 			setErr(fmt.Errorf("%s obligation %s: %v (script %s)", vc.key, o.Name, rr.err, sf))
